@@ -190,8 +190,19 @@ def setup(tier, seed):
     return {'real': real, 'tier': tier, 'limits': limits(tier), 'expected': exp}
 
 
-def child(ctx, prog, limit, fault, hold, nested=False, gv_proj=False, raise_limit=False):
+def _depth():
+    f = sys._getframe()
+    n = 0
+    while f is not None:
+        n += 1
+        f = f.f_back
+    return n
+
+
+def child(ctx, prog, limit, fault, hold, nested=False, gv_proj=False, raise_limit=False, headroom=None):
     """runs in a forked child; returns a JSON-able dict"""
+    if headroom is not None:
+        limit = _depth() + headroom
     real = ctx['real']
     E = real.E
     name, cl, qn, qa = prog
@@ -227,7 +238,10 @@ def child(ctx, prog, limit, fault, hold, nested=False, gv_proj=False, raise_limi
         res = []
         old = sys.getrecursionlimit()
         try:
-            orig_set(limit)
+            try:
+                orig_set(limit)
+            except RecursionError:
+                return res, 'recursion'      # (the limit is below the depth of this very frame)
             try:
                 for _ in g:
                     if gv_proj:
@@ -361,7 +375,8 @@ def run_forked(ctx, prog, jobs, timeout=60):
             out = []
             for job in jobs:
                 limit, fault, hold = job[0], job[1], job[2]
-                o = child(ctx, prog, limit, fault, hold, nested=(len(job) > 3 and job[3]), gv_proj=(len(job) > 4 and job[4]), raise_limit=(len(job) > 5 and job[5]))
+                o = child(ctx, prog, limit, fault, hold, nested=(len(job) > 3 and job[3]), gv_proj=(len(job) > 4 and job[4]), raise_limit=(len(job) > 5 and job[5]),
+                          headroom=(job[6] if len(job) > 6 else None))
                 out.append(o)
                 if o['after_limit'] != o['before_limit'] or o['bound_after'] > 0:
                     break
@@ -450,6 +465,11 @@ def run_case(ctx, seed, idx, tier):
         fault = rng.choice(FAULTS[1:]) if rng.random() < 0.6 else None
         hold = rng.random() < 0.4
         jobs.append((limit, fault, hold, rng.random() < 0.2, rng.random() < 0.35, rng.random() < 0.5))
+    # the caller's stack only a few frames below the limit it passes (limit = its own depth + 4..16): whatever
+    # evaluate_bounded itself does after the abort (logging, clean-up) has next to no stack left to do it in
+    rng = random.Random((seed * 1000003 + idx) * 7 + 171)
+    for h in rng.sample(range(4, 17), 2):
+        jobs.append((0, None, False, False, False, False, h))
     r = run_forked(ctx, prog, jobs)
     c0 = {'forked_children': 1}
     if r.get('timeout') or r.get('died') or 'crash' in r:
@@ -504,6 +524,12 @@ def judge(ctx, prog, job, r, idx):
     if 'crash' in r:
         return viol('harness_or_engine_crash_in_child', {'traceback': r['crash']})
     o = r['ok'][0]
+    if len(job) > 6 and job[6] is not None:
+        limit = o.get('limit', limit)
+        c['caller_within_16_frames_of_the_limit'] = 1
+        key = (prog[0], 'headroom', job[6])
+        w['limit'] = limit
+        w['headroom'] = job[6]
     c['setrecursionlimit_calls_seen'] = len(o['trace'])
     c['variables_checked'] = o['live_variables']
     res = o['result']
